@@ -57,3 +57,23 @@ Theorem C01_msgpack_encoding_determines_events :
     encodable utf8_valid v -> encodable utf8_valid v' ->
     enc_val v ++ t = enc_val v' ++ t' -> evs v = evs v' /\ t = t'.
 Proof. exact encoding_determines_events. Qed.
+
+(* JSON text written by serde_json's compact writer (theories/JsonWriteModel.v)
+   is read back by its reader (theories/JsonModel.v) to exactly the events of
+   the value written - integers of 64 bits stay integers of the same sign and
+   value, strings of any content come back byte for byte through the escape
+   table, array order and object-entry order are kept - for values of any size
+   and any nesting below the recursion limit, whatever follows the value.
+   Floats are spelled by ryu; the theorem states what it needs of that
+   spelling (the reader reads it back to the same bits) as premises. *)
+From XtModel Require Import JsonModel JsonWriteModel JsonWriteProofs.
+
+Theorem C01_json_reads_what_was_written :
+  forall (fmt_f64 : N -> bytes) (float_ok : N -> bool),
+    (forall b, float_ok b = true -> forall f depth tail, val_end tail ->
+       parse_value (S f) depth (fmt_f64 b ++ tail) = ([EF64 b], JOk tail)) ->
+    (forall b, float_ok b = true ->
+       exists c r, fmt_f64 b = c :: r /\ is_ws c = false /\ (c =? 93)%N = false /\ (c =? 125)%N = false /\ (c =? 44)%N = false) ->
+    forall (v : jval) (tail : bytes), writable float_ok v -> val_end tail ->
+      json_value (jwrite fmt_f64 v ++ tail) = (jevs v, JOk tail).
+Proof. exact json_value_reads_back. Qed.
